@@ -7,7 +7,7 @@ CONSTANTS
 \* further, so its segment never reaches SegDone (= rejected) while TLC goes on with the other segments.
 \* (Tm) is an action predicate and is conjoined to the reconcile event in MigrationJobTrace.
 CONSTRAINT GInv
-CONSTRAINT TtInv
+CONSTRAINT TtTraceInv
 CONSTRAINT OnceInv
 CONSTRAINT Report
 CHECK_DEADLOCK FALSE
